@@ -1,4 +1,4 @@
-(* Entry/EntryC16.v — C16 on the observed history of a session that stayed up until every line
+(* Entry/EntryC16.v — C16 on the observed history.  Sessions that stayed up until every line
    was delivered (format: DispatchDecode.v): C16_ok (every foreground invocation complete, every
    panic recovered once for its line, background ones sane), the panics of built-in handlers
    (short PING / 433 lines) all reached the recovery function, and later lines were still
@@ -8,10 +8,22 @@ From Verif Require Import EntryBase DispatchLts DispatchDecode.
 Definition is_int_recovered (e : event) : bool :=
   match e with EvRecovered KInt _ _ => true | _ => false end.
 
+(* the connection stays up: everything is delivered *)
+Definition judge_up (i : list bytes) (sess : session) (h : list event) : bool :=
+  C16_ok sess h && C03_ok sess h
+  && Nat.eqb (length (filter is_int_recovered h)) (dsp_shorts i).
+
+(* the connection ENDS (EOF / Close()) while background handlers may be parked for ever: lines
+   received around the end may be discarded, so completeness of the lines is not claimed, but the
+   DISCONNECTED event is still delivered — each of its foreground handlers ran to completion
+   (the harness reports "hung" instead of "ok" when Close() does not return, which does not decode) —
+   after every foreground invocation (C03_ok), and no event of an unknown handler *)
+Definition judge_ended (sess : session) (h : list event) : bool :=
+  C03_ok sess h && forallb (event_in_range sess) h
+  && forallb (fun j => inst_complete KDiscFg 0 j h) (seq 0 (d_fg sess)).
+
 Definition oracle_C16 (i o : list bytes) : bool :=
-  Nat.eqb (dsp_endmode i) 0
-  && dsp_judge (fun sess h => C16_ok sess h && C03_ok sess h
-                              && Nat.eqb (length (filter is_int_recovered h)) (dsp_shorts i)) i o.
+  dsp_judge (fun sess h => if Nat.eqb (dsp_endmode i) 0 then judge_up i sess h else judge_ended sess h) i o.
 
 Definition entry_C16 : entry :=
   {| e_model := fun _ => []; e_agree := oracle_C16; e_oracle := oracle_C16 |}.
